@@ -181,11 +181,22 @@ func genField(rng *rand.Rand, sb *strings.Builder, class string, s, f int, gener
 		pad := strings.Repeat(" ", rng.Intn(4))
 		decl = fmt.Sprintf("%s%s %s", name, pad, typ)
 	}
-	sb.WriteString("\t" + decl)
-	if len(existing) > 0 {
-		sb.WriteString(" `" + kvString(existing, sep) + "`")
+	writeHead := func(extraItem string) {
+		sb.WriteString("\t" + decl)
+		if len(existing) > 0 {
+			lit := kvString(existing, sep)
+			if extraItem != "" {
+				lit += sep + extraItem
+			}
+			sb.WriteString(" `" + lit + "`")
+		}
 	}
 	if !annotate {
+		if class == "G6" && rng.Intn(6) == 0 {
+			// a leading (doc) comment that mentions @tag belongs to no trailing annotation: untouched
+			sb.WriteString("\t// @tag valid:\"required\" doc:\"x\"\n")
+		}
+		writeHead("")
 		switch rng.Intn(5) {
 		case 0:
 			sb.WriteString(" // " + zhComments[rng.Intn(len(zhComments))])
@@ -201,7 +212,21 @@ func genField(rng *rand.Rand, sb *strings.Builder, class string, s, f int, gener
 	if class == "G3" {
 		mode = rng.Intn(4)
 	}
+	if class == "G3" && len(existing) >= 2 && rng.Intn(4) == 0 {
+		mode = 9 // override several existing keys, listed in the literal's own order
+	}
 	switch mode {
+	case 9:
+		for _, e := range existing {
+			if rng.Intn(3) != 0 {
+				inject = append(inject, KV{e.K, pickVal(rng, class)})
+			}
+		}
+		if rng.Intn(2) == 0 {
+			for _, k := range pickKeys(rng, 1, have) {
+				inject = append(inject, KV{k, pickVal(rng, class)})
+			}
+		}
 	case 0: // override only
 		k := existing[rng.Intn(len(existing))].K
 		inject = []KV{{k, pickVal(rng, class)}}
@@ -220,6 +245,17 @@ func genField(rng *rand.Rand, sb *strings.Builder, class string, s, f int, gener
 	if len(inject) == 0 {
 		inject = []KV{{"valid", pickVal(rng, class)}}
 	}
+	suffixKey := ""
+	if class == "G3" && rng.Intn(5) == 0 {
+		// the field already has a key of which an injected NEW key is a suffix, with the same value
+		// (`xvalid:"required"` vs `@tag valid:"required"`): a textual "already there" test is fooled
+		for _, in := range inject {
+			if !have[in.K] && !have["x"+in.K] {
+				suffixKey = "x" + in.K + ":\"" + in.V + "\""
+				break
+			}
+		}
+	}
 	prefix := ""
 	if class == "G4" || class == "G1" || rng.Intn(2) == 0 {
 		prefix = zhComments[rng.Intn(len(zhComments))] + " "
@@ -228,7 +264,16 @@ func genField(rng *rand.Rand, sb *strings.Builder, class string, s, f int, gener
 	if rng.Intn(6) == 0 {
 		trail = " "
 	}
-	if class == "G6" && rng.Intn(4) == 0 {
+	if class == "G6" && rng.Intn(5) == 0 {
+		// a doc comment above an annotated field: only the trailing comment counts
+		sb.WriteString("\t// @tag doc:\"ignored\"\n")
+	}
+	writeHead(suffixKey)
+	if class == "G6" && len(inject) >= 2 && rng.Intn(4) == 0 {
+		// the annotation spread over two trailing block comments
+		h := 1 + rng.Intn(len(inject)-1)
+		sb.WriteString(" /* " + prefix + "@tag " + kvString(inject[:h], " ") + " */ /* @tag " + kvString(inject[h:], " ") + " */\n")
+	} else if class == "G6" && rng.Intn(4) == 0 {
 		sb.WriteString(" /* " + prefix + "@tag " + kvString(inject, " ") + " */\n")
 	} else {
 		sb.WriteString(" // " + prefix + "@tag " + kvString(inject, " ") + trail + "\n")
